@@ -13,7 +13,7 @@ RULE = ("seeded gen_coords runs with residue types of 1-4 atoms (+ virtual site;
         "atoms; distinct = distinct event-log digests")
 ASSUMPTIONS = wa.ASSUMPTIONS
 REAL_VS_STUB = wa.REAL_VS_STUB
-PROBES = wa.PROBES + ["user_template", "alias_templates", "list_order", "earlier_call_same_topology_paths", "centres_supplied", "atoms_and_centres_supplied_together", "integer_position_arrays"]
+PROBES = wa.PROBES + ["user_template", "alias_templates", "list_order", "earlier_call_same_topology_paths", "centres_supplied", "atoms_and_centres_supplied_together", "integer_position_arrays", "user_template_and_shorter_variant_of_the_name"]
 PROFILE = {"max_atoms": 4, "p_bf": 0.7, "faults": ["orient", "orient", "step", "opt"], "n_restypes": (1, 3),
            "box_modes": ["cubic", "noncubic", "density"]}
 
@@ -43,11 +43,15 @@ def gen_job(verif_seed, tier, index):
         jobgen.add_user_templates(job, g)
     elif r < 0.55:
         jobgen.add_list_order(job, g)
-    elif r < 0.65:
+    elif r < 0.60:
         jobgen.add_resid_restart(job, g)       # residue numbers that start again inside a molecule type
-    elif r < 0.72:
+    elif r < 0.66:
+        jobgen.add_template_with_subset_variant(job, g)     # user template for a name one residue of which is shorter
+    elif r < 0.71:
+        jobgen.make_restart_job(job, g)        # diblock numbered 1..i, 1..j; half of the time with equal atom names
+    elif r < 0.76:
         jobgen.add_both_inputs(job, g)         # -c and -mc together
-    elif r < 0.79 and "box" in job["opts"]:
+    elif r < 0.83 and "box" in job["opts"]:
         # residue centres on an integer lattice, handed to the backmapping as integer arrays
         if jobgen.add_coordinates(job, g, {"lattice_centres": True, "coord_modes": ["meta_full", "meta_full", "meta_prefix"]}):
             job["int_positions"] = True
@@ -65,6 +69,8 @@ def _nt(j, r):
         r["probes"]["list_order"] = 1
     if r["faults"].get("position_as_integer_array"):
         r["probes"]["integer_position_arrays"] = 1
+    if j.get("template_with_subset_variant"):
+        r["probes"]["user_template_and_shorter_variant_of_the_name"] = 1
     if j.get("meta_text") is not None:
         r["probes"]["atoms_and_centres_supplied_together"] = 1
     return bool(r["probes"].get("backmapped_multi_atom_residue"))
